@@ -223,6 +223,13 @@ def run(e: Engine, rep: Report):
              'process) bounds each delivery, and the attempt by n times the '
              'configured timeout')
     t10(e, rep)
+    rep.rule('T11', 'the work a timeout scope is there for runs inside it: '
+             'nothing bound in the body of a `with Timeout(...)` is a lazy '
+             'sequence (map / filter / zip / a generator expression) that '
+             'is first consumed - or handed out - after the block; map() '
+             'runs nothing until it is iterated, so the blocking calls '
+             'happen with no clock armed')
+    t11(e, rep)
 
 
 def t4(e: Engine, rep: Report):
@@ -763,3 +770,93 @@ def t10(e: Engine, rep: Report):
         rep.ok('T10', 'slimta.relay.pipe', 'no timeout scope found in the '
                'pipe relay', reason='coverage is T1\'s obligation',
                nontrivial=False)
+
+
+# ---------------------------------------------------------------------- T11
+_LAZY = {'map', 'filter', 'zip', 'imap', 'starmap', 'chain', 'enumerate',
+         'reversed', 'iter', 'islice'}
+
+
+def t11(e: Engine, rep: Report):
+    n = 0
+    for f in sorted(e.p.functions.values(), key=lambda f: f.qname):
+        if not f.module.name.startswith('slimta'):
+            continue
+        withs = [w for w in walk_own(f.node) if isinstance(w, ast.With) and
+                 any(isinstance(i.context_expr, ast.Call) and
+                     ast.unparse(i.context_expr.func).rpartition('.')[2]
+                     == 'Timeout' for i in w.items)]
+        for w in withs:
+            n += 1
+            rep.evaluations += 1
+            rep.functions.add(f.qname)
+            inside = [x for b in w.body for x in ast.walk(b)]
+            lazy = {}
+
+            def is_lazy(v):
+                if isinstance(v, ast.GeneratorExp):
+                    return True
+                if isinstance(v, ast.Call) and \
+                        isinstance(v.func, (ast.Name, ast.Attribute)):
+                    nm = v.func.id if isinstance(v.func, ast.Name) \
+                        else v.func.attr
+                    if nm in ('map', 'filter', 'imap', 'starmap'):
+                        return True
+                    if nm in _LAZY:
+                        return any(is_lazy(a) or (
+                            isinstance(a, ast.Name) and a.id in lazy)
+                            for a in v.args)
+                return False
+            bad = None
+            for x in sorted((x for x in inside
+                             if isinstance(x, (ast.Assign, ast.Return))),
+                            key=lambda x: (x.lineno, x.col_offset)):
+                if isinstance(x, ast.Return) and x.value is not None and \
+                        is_lazy(x.value):
+                    bad = (x, 'is returned from inside the block')
+                    break
+                if isinstance(x, ast.Assign) and is_lazy(x.value):
+                    for t in x.targets:
+                        if isinstance(t, ast.Name):
+                            lazy[t.id] = x
+            if bad is None:
+                for nm, a in sorted(lazy.items()):
+                    used_in = [y for y in inside if isinstance(y, ast.Name)
+                               and y.id == nm and
+                               isinstance(y.ctx, ast.Load) and
+                               (y.lineno, y.col_offset) >
+                               (a.lineno, a.col_offset)]
+                    # handed on to another lazy wrapper only: still lazy
+                    real = []
+                    for y in used_in:
+                        par = [p for p in inside if isinstance(p, ast.Assign)
+                               and y in ast.walk(p.value) and
+                               is_lazy(p.value)]
+                        if not par:
+                            real.append(y)
+                    end = max((getattr(y, 'end_lineno', 0) or 0)
+                              for y in inside) if inside else w.lineno
+                    after = [y for y in walk_own(f.node)
+                             if isinstance(y, ast.Name) and y.id == nm and
+                             isinstance(y.ctx, ast.Load) and y.lineno > end]
+                    if not real and after:
+                        bad = (a, 'is first consumed after the block '
+                               '(line %d)' % after[0].lineno)
+                        break
+            rep.check(bad is None, 'T11', f.qname,
+                      'what `with %s` times runs inside it'
+                      % ' '.join(ast.unparse(
+                          w.items[0].context_expr).split())[:40],
+                      '`%s` builds a lazy sequence under the timeout and it '
+                      '%s: the calls it stands for (child processes, '
+                      'network round trips) run when it is iterated, outside '
+                      'the scope - a command that hangs is never timed out '
+                      'and holds the attempt (and its slot) for good'
+                      % (' '.join(ast.unparse(bad[0]).split())[:60]
+                         if bad else '', bad[1] if bad else ''),
+                      loc=f.loc(bad[0] if bad else w),
+                      reason='no map / filter / generator leaves the block '
+                      'unconsumed')
+    if n < 3:
+        rep.error('anchor vanished: `with Timeout(...)` scopes in slimta '
+                  '(%d < 3)' % n)
